@@ -95,6 +95,29 @@ pub struct ObjectWriterFSInner {
     writer: Option<std::io::BufWriter<std::fs::File>>,
 }
 
+/// Append `relative_path` to `dest`, refuse any path that could leave `dest`
+/// (parent directory, root directory or prefix components) or that names nothing.
+fn confined_destination(dest: &std::path::Path, relative_path: &str) -> Option<std::path::PathBuf> {
+    let mut destination = dest.to_path_buf();
+    let mut is_empty = true;
+    for component in std::path::Path::new(relative_path).components() {
+        match component {
+            std::path::Component::Normal(name) => {
+                destination.push(name);
+                is_empty = false;
+            }
+            std::path::Component::CurDir => {}
+            _ => return None,
+        }
+    }
+
+    if is_empty {
+        return None;
+    }
+
+    Some(destination)
+}
+
 impl ObjectWriter for ObjectWriterFS {
     fn open(&self, _now: SystemTime) -> Result<()> {
         let url = url::Url::parse(&self.meta.content_location);
@@ -119,7 +142,19 @@ impl ObjectWriter for ObjectWriterFS {
         let relative_path = content_location_path
             .strip_prefix('/')
             .unwrap_or(content_location_path);
-        let destination = self.dest.join(relative_path);
+        let destination = match confined_destination(&self.dest, relative_path) {
+            Some(destination) => destination,
+            None => {
+                log::error!(
+                    "Content location {:?} is not inside the destination directory",
+                    self.meta.content_location
+                );
+                return Err(FluteError::new(format!(
+                    "Content location {:?} is not inside the destination directory",
+                    self.meta.content_location
+                )));
+            }
+        };
         log::info!(
             "Create destination {:?} {:?} {:?}",
             self.dest,
